@@ -10,11 +10,10 @@ use iceoryx2_bb_system_types::file_path::FilePath;
 use iceoryx2_bb_system_types::path::Path;
 use iceoryx2_cal::named_concept::NamedConceptConfiguration;
 
-/// a symbolic file-name fragment of 1..=max bytes made of name characters
-fn any_fragment(max: usize) -> ([u8; 3], usize) {
+/// a symbolic file-name fragment of exactly `n` bytes (n concrete: the string machinery loops over
+/// lengths, symbolic lengths make every loop symbolic) made of name characters
+fn any_fragment(n: usize) -> ([u8; 3], usize) {
     let b: [u8; 3] = kani::any();
-    let n: usize = kani::any();
-    kani::assume(n >= 1 && n <= max);
     let mut i = 0;
     while i < 3 {
         if i < n {
@@ -65,64 +64,68 @@ fn mk_cfg(prefix: &[u8], suffix: &[u8], root: &[u8]) -> KConfig {
 
 /// (i) a name written by a domain is read back by the same domain, unchanged;
 /// (ii) a domain whose prefix is different and not a prefix-relative of the writer's never
-///      extracts a name from the writer's file; (iii) a different root never matches.
-proof!(12, fn c19_domain_isolation() {
-    let (p1, n1) = any_fragment(2);
-    let (p2, n2) = any_fragment(2);
-    let (nm, nn) = any_fragment(2);
+///      extracts a name from the writer's file; a different suffix never matches.
+fn domain_isolation<const N1: usize, const N2: usize, const NN: usize>(only_related: bool) {
+    let (p1, n1) = any_fragment(N1);
+    let (p2, n2) = any_fragment(N2);
+    let (nm, nn) = any_fragment(NN);
+    let related = starts_with(&p1[..n1], &p2[..n2]) || starts_with(&p2[..n2], &p1[..n1]);
+    if only_related {
+        kani::assume(related && !eq_bytes(&p1[..n1], &p2[..n2]));
+    }
     let cfg1 = mk_cfg(&p1[..n1], b".s", b"/r");
     let cfg2 = mk_cfg(&p2[..n2], b".s", b"/r");
     let name = FileName::new(&nm[..nn]).unwrap();
-    let fp: FilePath = cfg1.path_for(&name);
-    // everything lives under the configured root
-    assert!(fp.path() == Path::new(b"/r").unwrap(), "c19: created path is not under the configured root");
-    let file = fp.file_name();
+    let file = cfg1.path_for(&name).file_name();
     assert!(file.len() == n1 + nn + 2);
+    if only_related {
+        // the class excluded from the main harness, stated on its own (known finding F-C19-1)
+        assert!(cfg2.extract_name_from_file(&file).is_none(), "c19: a domain whose prefix is a prefix of (or extends) another domain's prefix sees that domain's file");
+        return;
+    }
     // (i) round trip inside the domain
     match cfg1.extract_name_from_file(&file) {
         Some(back) => assert!(eq_bytes(back.as_bytes(), &nm[..nn]), "c19: name does not round-trip through its own domain"),
         None => assert!(false, "c19: a domain does not recognise its own file"),
     }
-    assert!(cfg1.extract_name_from_path(&fp).is_some());
     // (ii) non-interference for prefixes that are not prefixes of one another
-    let related = starts_with(&p1[..n1], &p2[..n2]) || starts_with(&p2[..n2], &p1[..n1]);
     if !related {
         assert!(cfg2.extract_name_from_file(&file).is_none(), "c19: a foreign domain (unrelated prefix) sees this file");
     }
-    // (iii) a different root never matches, whatever the prefix
-    let other_root = mk_cfg(&p1[..n1], b".s", b"/q");
-    assert!(other_root.extract_name_from_path(&fp).is_none(), "c19: a domain with a different root sees this file");
-    // nested roots: one root being a string prefix of the other must not leak in either direction
-    let nested = mk_cfg(&p1[..n1], b".s", b"/r/i");
-    assert!(nested.extract_name_from_path(&fp).is_none(), "c19: a domain rooted below this one sees this file");
-    let fp_nested = nested.path_for(&name);
-    assert!(cfg1.extract_name_from_path(&fp_nested).is_none(), "c19: a domain sees a file created under a nested root");
-    let sibling = mk_cfg(&p1[..n1], b".s", b"/rr");
-    assert!(sibling.extract_name_from_path(&fp).is_none() && cfg1.extract_name_from_path(&sibling.path_for(&name)).is_none(),
-        "c19: roots that are string prefixes of one another are not separated");
-    // an equivalent spelling of the same root is the same domain
-    let same = mk_cfg(&p1[..n1], b".s", b"/r/");
-    assert!(same.extract_name_from_path(&fp).is_some(), "c19: an equivalent spelling of the root lost its own file");
     // a different suffix never matches
     let other_suffix = mk_cfg(&p1[..n1], b".t", b"/r");
     assert!(other_suffix.extract_name_from_file(&file).is_none(), "c19: a domain with a different suffix sees this file");
-    kani::cover!(!related && n1 == 2 && n2 == 2, "two unrelated two-byte prefixes");
-    kani::cover!(related && !eq_bytes(&p1[..n1], &p2[..n2]), "prefix of a prefix");
+    kani::cover!(!related, "two unrelated prefixes");
+    kani::cover!(related, "identical or prefix-related prefixes");
+}
+
+proof!(12, fn c19_domain_isolation() { domain_isolation::<2, 2, 2>(false); canaries(); });
+proof!(12, fn c19_domain_isolation_mixed_len() { domain_isolation::<1, 2, 2>(false); canaries(); });
+
+/// (iii) everything lives under the configured root; a different root never matches, including
+/// roots that are string prefixes of one another (nested / sibling); an equivalent spelling of the
+/// same root is the same domain
+proof!(12, fn c19_root_isolation() {
+    let (nm, nn) = any_fragment(2);
+    let name = FileName::new(&nm[..nn]).unwrap();
+    let cfg1 = mk_cfg(b"p", b".s", b"/r");
+    let fp: FilePath = cfg1.path_for(&name);
+    assert!(fp.path() == Path::new(b"/r").unwrap(), "c19: created path is not under the configured root");
+    assert!(cfg1.extract_name_from_path(&fp).is_some(), "c19: a domain does not recognise its own path");
+    let which: u8 = kani::any();
+    kani::assume(which < 3);
+    let other_root: &[u8] = match which { 0 => b"/q", 1 => b"/r/i", _ => b"/rr" };
+    let other = mk_cfg(b"p", b".s", other_root);
+    assert!(other.extract_name_from_path(&fp).is_none(), "c19: a domain with a different (unrelated, nested or sibling) root sees this file");
+    let fp_other = other.path_for(&name);
+    assert!(cfg1.extract_name_from_path(&fp_other).is_none(), "c19: a domain sees a file created under a different root");
+    let same = mk_cfg(b"p", b".s", b"/r/");
+    assert!(same.extract_name_from_path(&fp).is_some(), "c19: an equivalent spelling of the root lost its own file");
+    kani::cover!(which == 1, "nested root");
     canaries();
 });
 
 /// The class excluded above, stated on its own (known finding F-C19-1 while open): when one
-/// prefix is a proper prefix of the other, the domain with the shorter prefix extracts a
+/// prefix is a proper prefix of the other, the domain with the longer prefix can extract a
 /// (different) name from the other domain's file.
-proof!(12, fn c19_domain_isolation_prefix_of_prefix() {
-    let (p1, n1) = any_fragment(2);
-    let (p2, n2) = any_fragment(2);
-    let (nm, nn) = any_fragment(2);
-    let related = starts_with(&p1[..n1], &p2[..n2]) || starts_with(&p2[..n2], &p1[..n1]);
-    kani::assume(related && !eq_bytes(&p1[..n1], &p2[..n2]));
-    let cfg1 = mk_cfg(&p1[..n1], b".s", b"/r");
-    let cfg2 = mk_cfg(&p2[..n2], b".s", b"/r");
-    let name = FileName::new(&nm[..nn]).unwrap();
-    let file = cfg1.path_for(&name).file_name();
-    assert!(cfg2.extract_name_from_file(&file).is_none(), "c19: a domain whose prefix is a prefix of (or extends) another domain's prefix sees that domain's file");
-});
+proof!(12, fn c19_domain_isolation_prefix_of_prefix() { domain_isolation::<1, 2, 2>(true); });
